@@ -476,6 +476,12 @@ pub fn replay(case: &Value) -> Option<Violation> {
             observed: detail,
         });
     }
+    if case.get("session").is_some() {
+        return crate::props::c17::replay(case).map(|mut v| {
+            v.property = "C03".into();
+            v
+        });
+    }
     if case.get("safety_only").is_some() {
         let src = case.get("src")?.as_str()?;
         let o = run_eval(src, &RunCfg { budget: VM_BUDGET, audit_heap: true });
@@ -495,12 +501,14 @@ pub fn run_check(ctx: &Ctx) -> Report {
          evaluated under the shadow heap (every dereference checked, freed blocks quarantined so that addresses are never reused) and compared with the reference interpreter; the collector observers check at every cycle that everything reachable from the roots at its start is live and unchanged at its end. \
          (B) histories of collector operations (allocate float/string/array, link, unlink, collect with a chosen root set incl. duplicates and unmanaged arrays, hand over) driving the collector directly, against a reachability model: \
          ALL histories of <=4 (quick) / <=5 (thorough) operations over a 3-object universe, random histories of <=40 operations over 8 objects. \
+         (C) generated sessions on a retained compiler + VM (heap values in globals across runs, run-time failing lines, fresh objects stored into arrays of earlier lines, function calls), judged for memory safety. \
          non-trivial = a collection ran while >=1 heap object was reachable and >=1 was garbage; distinct by program text / history",
     );
     rep.assumptions.push("shadow heap (hook H5) is the ground truth for freed / live".into());
     let known = load_known_findings();
     let cases = ctx.pick(120_000u32, 3_000_000u32) / ctx.shards as u32;
     let hist = ctx.pick(150_000u32, 4_000_000u32) / ctx.shards as u32;
+    let sessions = ctx.pick(40_000u32, 1_000_000u32) / ctx.shards as u32;
     let seed = ctx.seed;
     let shards = ctx.shards;
     let enum_len = ctx.pick(4usize, 5usize);
@@ -508,6 +516,31 @@ pub fn run_check(ctx: &Ctx) -> Report {
         let cfg = DiffCfg { prop: "C03", driver: "alloc-programs", profile: Profile::alloc(), cases, max_len: 700, seed: seed.wrapping_mul(179_424_673) + shard as u64 };
         run_alloc_tapes(r, &cfg, &known);
         history_driver(r, "C03", false, seed.wrapping_mul(198_491_317) + shard as u64, hist, shard, shards, enum_len);
+        // (C) the collector of a retained machine: sessions whose lines keep heap values in globals across runs, fail at run time,
+        // store fresh objects into arrays of earlier lines and call functions (collections); judged for memory safety only
+        let heap_class = |c: &str| c.contains("heap") || c.contains("gc:") || c.contains("result graph") || c.starts_with("crash:panic");
+        let fail = run_tapes(seed.wrapping_mul(314_606_869) + shard as u64, sessions, 300, |tape, shrinking| {
+            let lines = crate::props::c17::gen_session(tape);
+            if !shrinking {
+                r.eval();
+                r.count("sessions");
+                r.nontrivial(&format!("{lines:?}"));
+            }
+            match crate::props::c17::check_session(&lines) {
+                Err(f) if heap_class(&f.0) => Err(f.0),
+                _ => Ok(()),
+            }
+        });
+        if let Some((tape, _)) = fail {
+            let lines = crate::props::c17::gen_session(&tape);
+            if let Err(f) = crate::props::c17::check_session(&lines) {
+                let cls = f.0.clone();
+                let small = crate::props::c17::minimize_session(&lines, &mut |l| matches!(crate::props::c17::check_session(l), Err(g) if g.0 == cls));
+                if let Err(f) = crate::props::c17::check_session(&small) {
+                    r.violation(Violation { property: "C03".into(), driver: "sessions".into(), class: f.0, case: f.1, expected: "no freed object is observed on a retained machine".into(), observed: f.3 });
+                }
+            }
+        }
     })
 }
 
